@@ -24,7 +24,7 @@
      5 "probe" the fixed hand-made trajectory of the first probe: 4 beads on a unit square,
                boxes 4^3 then 8^3 nm
      6 "tric"  strongly skewed triclinic boxes (a = (ax,0,0), b = (+-ax/2, by, 0), c = (0,0,cz),
-               ax 16-20 nm, by 4-4.5 nm): |b| is more than twice the box width along b; the A-A range
+               ax 19-22 nm, by 4-4.5 nm): |b| is more than twice the box width along b; the A-A range
                reaches 1.9375 nm with cutoff 2 nm = half the smallest height
    Planted beads (every family, every frame).  Three A beads at o + (-6,0,0), (-3,0,0), (-3,2,0) give
    the distances 3 u = 12 q and sqrt(13) u = 14.42 q; the "hi" layouts (16,4), (18,8), (17,8) have
@@ -209,7 +209,7 @@ ScenProbe(s) ==
 
 \* ---- family 6: skewed triclinic boxes ----------------------------------------------------------------
 TricBox(s, f) ==
-  LET ax == PickSeq(s, 900 + f, <<128, 144, 160>>)
+  LET ax == PickSeq(s, 900 + f, <<152, 160, 176>>)
       sg == IF Pick(s, 910 + f, 2) = 0 THEN 1 ELSE -1
   IN <<ax, PickSeq(s, 920 + f, <<32, 34, 36>>), PickSeq(s, 930 + f, <<32, 40, 48>>), sg * (ax \div 2), 0, 0>>
 ScenTric(s) ==
